@@ -112,6 +112,9 @@ func candidates(cur *Case, dir string) []*Case {
 		if cur.Peek {
 			add(func(c *Case) bool { c.Peek = false; return true })
 		}
+		if cur.Pre {
+			add(func(c *Case) bool { c.Pre = false; return true })
+		}
 		if cur.Every2 != 0 {
 			add(func(c *Case) bool { c.Every2 = 0; return true })
 		}
@@ -398,6 +401,9 @@ func canonicalSignature(c *Case, fs []fail, class, dir string) string {
 		}
 		if c.Peek {
 			r += "+zero-length-read-before-s2c-copy"
+		}
+		if c.Pre {
+			r += "+relay-writes-before-s2c-copy"
 		}
 		parts = append(parts, r)
 		if c.Every2 != 0 {
